@@ -57,7 +57,7 @@ For each change deliver, in $A/out/1/ and $A/out/2/ :
 
 Procedure: read the code under src/ (start with the anchors), design the change, apply it in the
 worktree, build both ways, run the full suite, write the demo, confirm it fails with the change;
-then \`git stash\`/\`git checkout\` to a clean tree, confirm the demo passes there. Save the files,
+then save your change with \`git diff > file\` and \`git checkout -- .\` to get a clean tree (NEVER use \`git stash\`: the stash is shared with other worktrees of this repository), confirm the demo passes there. Save the files,
 then restore the worktree to clean HEAD (\`git checkout -- . && git clean -fdq -e target\`) before
 starting the second change, and again at the end. Keep the build directory \`target/\` inside the
 worktree. Be careful that patch.diff and demo.diff are plain unified diffs produced by git.
